@@ -121,19 +121,23 @@ def quick_programs(seed=0, sample=40):
 
 
 def thorough_programs(seed=0, sample=150):
-    """Thorough tier: every kind alone, all ordered pairs of the quick alphabet (heavy kinds included, aligned too), every
-    kind paired with the cheap partners in both orders, seeded sequences of 3-6 kinds."""
-    alpha = [k for k in KINDS if k not in REJECTED]
-    ps = singles() + dynamic_unions() + sandwiches() + after_dynamic() + pairs(QUICK)
+    """Thorough tier: the quick set, all ordered pairs of the quick alphabet under both byte orders, every kind paired with
+    the cheap partners in both orders, seeded sequences of 3-6 kinds. Combinations known to sit at the per-case budget
+    (aligned definitions with a heavy kind, or a 16-aligned member next to a member of symbolic length) are left to the
+    single-kind programs, as in the quick tier."""
+    alpha = [k for k in KINDS if k not in REJECTED and k not in SINGLE_ONLY]
+    ps = quick_programs(seed) + pairs(QUICK, skip_heavy_aligned=True)
     for k in alpha:
         for q in CHEAP_PARTNERS + ["d_char"]:
             for seq in ((k, q), (q, k)):
                 if valid_sequence(seq) and not (k in HEAVY and q in HEAVY):
                     for e in ("<", ">"):
                         for al in (False, True):
+                            if al and (k in HEAVY or q in HEAVY or (k in ALIGN16 and _dynamic(q)) or (q in ALIGN16 and _dynamic(k))):
+                                continue
                             ps.append(Program(list(seq), e, al))
     light = [k for k in KINDS if k not in HEAVY and k not in REJECTED and k not in EOF_KINDS and k not in SINGLE_ONLY]
-    ps += sample_programs(light, sample, 3, 6, seed)
+    ps += [p for p in sample_programs(light, sample, 3, 6, seed) if _quick_ok(p)]
     return dedupe(ps)
 
 
